@@ -21,6 +21,8 @@ type exitSignal struct{ code int }
 type cliScenario struct {
 	argv     []string
 	failOpen string // path whose opening fails ("" none)
+	failWrite  bool // every open for writing fails (the destination is unwritable)
+	failRename bool // every rename fails
 	failRead bool
 	failParse, failCompile bool
 }
@@ -35,6 +37,8 @@ type cliTrace struct {
 	compileFile string
 	readFrom   string
 	und        string
+	moves      []string // "old -> new" / "remove path", in order (the parser may be generated beside the destination and moved)
+	renames    int
 }
 
 func runCLI(r *Repo, sc cliScenario) (tr cliTrace) {
@@ -149,7 +153,7 @@ func runCLI(r *Repo, sc cliScenario) (tr cliTrace) {
 	open := func(mode string) func(it *Interp, args []Value) []Value {
 		return func(it *Interp, args []Value) []Value {
 			name, _ := args[0].(string)
-			if name == sc.failOpen {
+			if name == sc.failOpen || (sc.failWrite && strings.HasPrefix(mode, "w")) {
 				tr.opens = append(tr.opens, mode+":"+name+" (fails)")
 				return []Value{Nil{}, &Ext{"error: open " + name}}
 			}
@@ -169,6 +173,30 @@ func runCLI(r *Repo, sc cliScenario) (tr cliTrace) {
 			}
 		}
 		return open(mode)(it, args)
+	}
+	it.natives["os.Rename"] = func(it *Interp, args []Value) []Value {
+		from, _ := args[0].(string)
+		to, _ := args[1].(string)
+		tr.renames++
+		if sc.failRename {
+			tr.moves = append(tr.moves, "rename "+from+" -> "+to+" (fails)")
+			return []Value{&Ext{"error: rename " + from + " " + to}}
+		}
+		tr.moves = append(tr.moves, "rename "+from+" -> "+to)
+		return []Value{Nil{}}
+	}
+	it.natives["os.Remove"] = func(it *Interp, args []Value) []Value {
+		name, _ := args[0].(string)
+		tr.moves = append(tr.moves, "remove "+name)
+		return []Value{Nil{}}
+	}
+	it.natives["(*os.File).Name"] = func(it *Interp, args []Value) []Value {
+		if e, ok := args[0].(*Ext); ok {
+			if i := strings.Index(e.desc, ":"); i >= 0 && strings.HasPrefix(e.desc, "file ") {
+				return []Value{e.desc[i+1:]}
+			}
+		}
+		panic(undecided{"Name of " + describe(args[0])})
 	}
 	it.natives["(*os.File).Close"] = func(it *Interp, args []Value) []Value { return []Value{Nil{}} }
 	it.natives["(*os.File).Sync"] = func(it *Interp, args []Value) []Value { return []Value{Nil{}} }
@@ -321,6 +349,32 @@ func describeStream(v Value) string {
 	return describe(v)
 }
 
+// finalLocation: where the text Compile wrote is when main ends.
+func finalLocation(tr cliTrace) string {
+	loc := tr.compileOut
+	if !strings.HasPrefix(loc, "file w:") {
+		return loc
+	}
+	p := strings.TrimPrefix(loc, "file w:")
+	for _, mv := range tr.moves {
+		switch {
+		case strings.HasSuffix(mv, "(fails)"):
+		case strings.HasPrefix(mv, "rename "):
+			ft := strings.SplitN(strings.TrimPrefix(mv, "rename "), " -> ", 2)
+			if len(ft) == 2 && ft[0] == p {
+				p = ft[1]
+			} else if len(ft) == 2 && ft[1] == p {
+				return "(overwritten by " + ft[0] + ")"
+			}
+		case strings.HasPrefix(mv, "remove "):
+			if strings.TrimPrefix(mv, "remove ") == p {
+				return "(removed)"
+			}
+		}
+	}
+	return "file w:" + p
+}
+
 func cliSemantics(c *Check, r *Repo) {
 	construct := "main/exit status, destination, source and option wiring on modelled command lines"
 	type cmd struct {
@@ -381,7 +435,15 @@ func cliSemantics(c *Check, r *Repo) {
 				name string
 				sc   cliScenario
 				ok   bool
-			}{"the destination cannot be opened", cliScenario{argv: cm.argv, failOpen: destPath}, false})
+			}{"the destination cannot be opened", cliScenario{argv: cm.argv, failOpen: destPath}, false}, struct {
+				name string
+				sc   cliScenario
+				ok   bool
+			}{"no file can be opened for writing", cliScenario{argv: cm.argv, failWrite: true}, false}, struct {
+				name string
+				sc   cliScenario
+				ok   bool
+			}{"moving a file fails", cliScenario{argv: cm.argv, failRename: true}, false})
 		}
 		for _, s := range scs {
 			tr := runCLI(r, s.sc)
@@ -391,6 +453,18 @@ func cliSemantics(c *Check, r *Repo) {
 				return
 			}
 			where := "`" + line + "` when " + s.name
+			if s.sc.failOpen == destPath && destPath != "" && tr.exit == 0 && finalLocation(tr) == cm.dest && !strings.Contains(strings.Join(tr.opens, " "), "(fails)") {
+				// the destination itself is never opened (the parser is generated elsewhere and moved
+				// there): the unwritable destination is the "no file can be opened" / "moving fails" case
+				continue
+			}
+			if s.sc.failRename && tr.renames == 0 {
+				// nothing is moved: this is the success case again
+				if tr.exit != 0 {
+					bad = append(bad, fmt.Sprintf("%s: exit status %d although nothing failed", where, tr.exit))
+				}
+				continue
+			}
 			if s.ok {
 				if tr.exit != 0 {
 					bad = append(bad, fmt.Sprintf("%s: exit status %d", where, tr.exit))
@@ -400,8 +474,8 @@ func cliSemantics(c *Check, r *Repo) {
 					bad = append(bad, where+": exit status 0 although the parser was never generated")
 					continue
 				}
-				if tr.compileOut != cm.dest {
-					bad = append(bad, fmt.Sprintf("%s: the parser is written to %s, requested: %s (files opened: %s)", where, tr.compileOut, cm.dest, strings.Join(tr.opens, ", ")))
+				if final := finalLocation(tr); final != cm.dest {
+					bad = append(bad, fmt.Sprintf("%s: the parser ends up in %s, requested: %s (files opened: %s; moved: %s)", where, final, cm.dest, strings.Join(tr.opens, ", "), strings.Join(tr.moves, ", ")))
 				}
 				if tr.readFrom != cm.src {
 					bad = append(bad, fmt.Sprintf("%s: the grammar is read from %s, expected %s", where, tr.readFrom, cm.src))
@@ -433,6 +507,6 @@ func cliSemantics(c *Check, r *Repo) {
 		bad = append(bad[:5], fmt.Sprintf("… %d more", len(bad)-5))
 	}
 	c.Decide(len(bad) == 0 && n >= 60, "R-cli-semantics", construct, "",
-		fmt.Sprintf("%d evaluations of main (14 command lines: default, nested and absolute grammar paths, -output file / = / -, standard input, each option flag and all of them × success, syntax error, generation failure, read failure, unopenable grammar, unopenable destination): exit status 0 exactly when Compile was given the requested destination and returned nil; grammar, destination, tree.New arguments and Strict as the command line says; create+truncate on the destination", n),
+		fmt.Sprintf("%d evaluations of main (14 command lines: default, nested and absolute grammar paths, -output file / = / -, standard input, each option flag and all of them × success, syntax error, generation failure, read failure, unopenable grammar, unopenable destination, no file writable, moving a file fails): exit status 0 exactly when the text Compile wrote is at the requested destination when main ends and Compile returned nil; grammar, destination, tree.New arguments and Strict as the command line says; create+truncate on the destination", n),
 		strings.Join(bad, "; "))
 }
